@@ -236,6 +236,9 @@ func VxH13extra() {
 		map[string]string{}, map[string]string{}, "", nil, 1)
 	tmp := t.TempDir()
 	vxWalkExtra(tmp + "/" + X)
+	// what Lstat (filepath.Walk) reports for it is the solver's choice: regular file, symbolic
+	// link (`ln -s out latest`), named pipe or socket - "additional files" are not only regular ones
+	vxWalkExtraKind(vxInt("xkind", 0, 3))
 	vxTraceStatSeq("1") // directory of the extra file's destination exists
 	ev0 := vxEvCount()
 	kind := vxRun(func() {
